@@ -17,15 +17,15 @@ Ev == Trace[l]
 ToSet(s) == {s[i] : i \in 1..Len(s)}
 
 TraceInit == /\ Trace[1].op = "Header" /\ l = 2 /\ nbad = 0 /\ nmach = 0
-             /\ platform = "none" /\ extra = {} /\ registry = {} /\ phase = "linked" /\ outcome = "none"
+             /\ platform = "none" /\ extra = {} /\ registry = {} /\ phase = "linked" /\ outcome = "none" /\ calls = 0
 TraceNext ==
   /\ l <= Len(Trace) /\ l' = l + 1
-  \* one probe = the model's Link ; RunInits ; CallHash for that program on that platform
+  \* one probe = the model's Link ; RunInits ; CallHash ; LateRegister ; CallHash for that program in that configuration
   /\ platform' = Ev.platform
   /\ extra' = ToSet(Ev.extra)
   /\ registry' = UNION {RegOf(p) : p \in LibClosure[platform'] \cup extra'}
-  /\ phase' = "done"
-  /\ outcome' = IF Needs \subseteq registry' THEN "ok" ELSE "panic"
+  /\ phase' = "done" /\ calls' = 2
+  /\ outcome' = Predict(platform', extra')
   /\ IF Ev.outcome # "ok"
      \* the property: hashing works in EVERY program
      THEN /\ PrintT(<< "DISAGREE", l, "Probe", "hashing-panics", << Ev.platform, Ev.extra, Ev.detail >> >>)
